@@ -6,6 +6,11 @@
                                            | S,optional,name,flag;flag,version-or-!,rest;rest,logical-or-!,orig
      rawdeps = entry|entry...         entry = name:version:dep,optional,depth+dep,optional,depth...
    answer: ok TAB text|text...  (one rendered line each) | err TAB kind
+   line: xtext TAB world TAB env TAB top TAB plist TAB force TAB text TAB rawdeps [TAB tfix,jfix,sfix,cfix]
+     text    = the text of the table file (level A is done by the model: Model/ExpandText.v)
+   answer: ok TAB text (the text written, white space included) | outside TAB reason | err TAB kind
+   line: classify TAB text [TAB tfix]
+   answer: ok TAB line|line... (as above) | outside TAB reason | err TAB kind
    line: req ...  exactly as in drv_c01.ml (the exact-mode replay through Model/Setup.v) *)
 let dec_env (s : Stdlib.String.t) =
   dec_list ';' (fun kv ->
@@ -56,6 +61,7 @@ let dec_line (s : Stdlib.String.t) : tline =
   | ["B"] -> LBlank
   | ["C"; t] -> LComment (dec_str t)
   | ["O"; t] -> LOther (dec_str t)
+  | ["E"; t] -> LEups (dec_str t)
   | ["S"; o; n; fl; v; rest; lg; orig] ->
     LSetup { sl_optional = bool_of_field o; sl_name = dec_str n; sl_flags = dec_strlist ';' fl;
              sl_version = dec_opt v; sl_rest = dec_strlist ';' rest; sl_logical = dec_opt lg; sl_orig = dec_str orig }
@@ -72,8 +78,45 @@ let dec_raw (s : Stdlib.String.t) =
   | [n; v] -> ((dec_str n, dec_str v), [])
   | _ -> failwith "bad rawdeps"
 
+let outside_name = function
+  | XNonAscii -> "non-ascii" | XExternal -> "external" | XExactBlock -> "exact-block" | XTextAround -> "text-around"
+  | XParen -> "paren" | XNoName -> "no-name" | XNameNotFirst -> "name-not-first" | XFlagArg -> "flag-arg" | XExpr -> "expression" | XNewline -> "newline"
+
+let enc_opt = function None -> "!" | Some x -> enc_str x
+let enc_tline = function
+  | LBlank -> "B"
+  | LComment t -> "C," ^ enc_str t
+  | LOther t -> "O," ^ enc_str t
+  | LEups t -> "E," ^ enc_str t
+  | LSetup s -> Stdlib.String.concat "," ["S"; (if s.sl_optional then "1" else "0"); enc_str s.sl_name;
+                                          enc_strlist ';' s.sl_flags; enc_opt s.sl_version; enc_strlist ';' s.sl_rest;
+                                          enc_opt s.sl_logical; enc_str s.sl_orig]
+
 let handle (f : Stdlib.String.t array) : Stdlib.String.t =
   match f.(0) with
+  | "xtext" ->
+    let w = Stdlib.List.map dec_product (split_sep '|' f.(1)) in
+    let e = dec_env f.(2) in
+    let top = dec_str f.(3) in
+    let plist = dec_env f.(4) in
+    let force = bool_of_field f.(5) in
+    let text = dec_str f.(6) in
+    let rd = Stdlib.List.map dec_raw (split_sep '|' f.(7)) in
+    let (tfix, jfix, sfix, cfix) =
+      if Array.length f > 8 then
+        (match Stdlib.String.split_on_char ',' f.(8) with
+         | [t; a; b; c] -> (bool_of_field t, bool_of_field a, bool_of_field b, bool_of_field c)
+         | _ -> failwith "bad variant")
+      else (true, true, true, true) in
+    (match expand_text_gen tfix jfix sfix cfix w e top plist force rd text with
+     | Inside out -> "ok\t" ^ enc_str out
+     | Outside x -> "outside\t" ^ outside_name x
+     | Raises k -> "err\t" ^ err_name k)
+  | "classify" ->
+    (match classify_text (if Array.length f > 2 then bool_of_field f.(2) else true) (dec_str f.(1)) with
+     | Inside ls -> "ok\t" ^ Stdlib.String.concat "|" (Stdlib.List.map enc_tline ls)
+     | Outside x -> "outside\t" ^ outside_name x
+     | Raises k -> "err\t" ^ err_name k)
   | "expand" ->
     let w = Stdlib.List.map dec_product (split_sep '|' f.(1)) in
     let e = dec_env f.(2) in
